@@ -207,7 +207,9 @@ func appendInt(p *thrift.BinaryProtocol, typ thrift.Type, out *[]byte) error {
 		if err != nil {
 			return err
 		}
-		*out = append(*out, s...)
+		// the string must be quoted with JSON escapes: drop the bare quote written above and encode it whole
+		*out = json.EncodeString((*out)[:l-1], s)
+		return nil
 	default:
 		return meta.NewError(meta.ErrUnsupportedType, fmt.Sprintf("unsupported type: %v", typ), nil)
 	}
